@@ -267,7 +267,7 @@ func (pl *player) PlayRound(sc RoundScript) bool {
 		}
 	}
 	rs = n.CS.GetRoundState()
-	if rs.Height == h && rs.Round == r && n.Ticker.Armed {
+	if rs.Height == h && rs.Round == r && n.Ticker.IsArmed() {
 		// whatever the node is waiting for (precommit-wait, or still prevote/precommit without quorum): let time pass
 		if !pl.fire("round-timeout") {
 			return false
@@ -292,7 +292,7 @@ func drive4(n *PNode, scripts []RoundScript, target int64, marks *[]Mark, trace 
 			return false, false
 		}
 		after := fingerprint(n.CS)
-		if i >= len(scripts) && before == after && !n.Ticker.Armed {
+		if i >= len(scripts) && before == after && !n.Ticker.IsArmed() {
 			// a happy round changed nothing and no timer is pending: wedged
 			return true, false
 		}
